@@ -224,11 +224,85 @@ def geo_ref(cfg):
   return fn
 
 
+# ---- D: the algorithms that consume these passes (Mime / MimeLite server gradient, agnostic domain weights) ----------
+def alg_code(cfg):
+  fedjax, models, cds, regularizers, tree_util, mime, agnostic = _fx()
+  from fedjax.algorithms import mime_lite
+  from fedjax.core import optimizers
+  pel, _, _ = make_loss('lin')
+  sizes = cfg['sizes']
+  DOM = [0, 1, 0, 1, 1, 0, 0, 1]
+
+  def fn(w, b, X, Tg, Dm, key):
+    params = {'w': w, 'b': b}
+
+    def pel_idx(p, batch, rng):
+      idx = batch['idx']
+      return (X[idx] @ p['w'] + p['b'] - Tg[idx]) ** 2
+    clients, off = [], 0
+    for ci, n in enumerate(sizes):
+      ds = cds.ClientDataset({'idx': np.arange(off, off + n, dtype=np.int32), 'domain_id': np.asarray(DOM[off:off + n], np.int32)})
+      clients.append((b'c%d' % ci, ds, jax.random.fold_in(key, ci) if False else key))
+      off += n
+    hp_train = cds.ShuffleRepeatBatchHParams(batch_size=2, num_epochs=1, seed=0)
+    hp_pad = cds.PaddedBatchHParams(batch_size=cfg['batch'], num_batch_size_buckets=cfg['buckets'])
+    base = optimizers.sgd(0.5, momentum=0.5)
+    if cfg['what'] == 'mime_lite_opt':
+      alg = mime_lite.mime_lite(pel_idx, base, hp_train, hp_pad, server_learning_rate=1.0, regularizer=reg_of(cfg))
+      new, _ = alg.apply(alg.init(params), clients)
+      return [l for l in jax.tree_util.tree_leaves(new.opt_state) if np.dtype(l.dtype).kind == 'f']
+    if cfg['what'] == 'mime_opt':
+      alg = mime.mime(pel_idx, base, hp_train, hp_pad, server_learning_rate=1.0, regularizer=reg_of(cfg))
+      new, _ = alg.apply(alg.init(params), clients)
+      return [l for l in jax.tree_util.tree_leaves(new.opt_state) if np.dtype(l.dtype).kind == 'f']
+    if cfg['what'] == 'agnostic_weights':
+      alg = agnostic.agnostic_federated_averaging(pel_idx, optimizers.sgd(0.5), optimizers.sgd(1.0), hp_train, hp_pad, init_domain_weights=[0.25, 0.75],
+                                                  domain_learning_rate=0.5, domain_window_size=1, regularizer=reg_of(cfg))
+      new, _ = alg.apply(alg.init(params), clients)
+      return {'weights': new.domain_weights, 'window': jnp.stack(new.domain_window)}
+    raise ValueError(cfg['what'])
+  return fn, DOM
+
+
+def alg_ref(cfg):
+  from fedjax.core import optimizers
+  _, grad_one, loss_one = make_loss('lin')
+  sizes = cfg['sizes']
+
+  def fn(w, b, X, Tg, Dm, key):
+    params = {'w': w, 'b': b}
+    N = sum(sizes)
+    DOM = [0, 1, 0, 1, 1, 0, 0, 1]
+    if cfg['what'] in ('mime_lite_opt', 'mime_opt'):
+      gs = [grad_one(params, X[i], Tg[i]) for i in range(N)]
+      g = jax.tree_util.tree_map(lambda *ls: sum(ls) / N, *gs)       # full-batch gradient over the cohort
+      if cfg.get('reg'):
+        g = jax.tree_util.tree_map(lambda a, r: a + r, g, reg_grad(params))
+      base = optimizers.sgd(0.5, momentum=0.5)
+      st, _ = base.apply(g, base.init(params), params)
+      return [l for l in jax.tree_util.tree_leaves(st) if np.dtype(l.dtype).kind == 'f']
+    dl = [sum([loss_one(params, X[i], Tg[i]) for i in range(N) if DOM[i] == d], jnp.zeros(())) for d in range(2)]
+    dn = [float(sum(1 for i in range(N) if DOM[i] == d)) for d in range(2)]
+    mean = [dl[d] / dn[d] if dn[d] else jnp.zeros(()) for d in range(2)]
+    w0 = [0.25, 0.75]
+    un = [w0[d] * jnp.exp(0.5 * mean[d]) for d in range(2)]
+    tot = un[0] + un[1]
+    return {'weights': jnp.stack([un[0] / tot, un[1] / tot]), 'window': jnp.asarray([dn])}
+  return fn
+
+
 # ---------------------------------------------------------------------------------------------------
 def run_one(run, kind, cfg, timeout):
   name = '%s[%s]' % (kind, ','.join('%s=%s' % (k, cfg[k]) for k in sorted(cfg)))
   h = jh.Harness(run, name, timeout)
-  if kind == 'geo':
+  if kind == 'alg':
+    N = sum(cfg['sizes'])
+    w, b, X, Tg = sym_inputs(N)
+    Dm = np.zeros((0,), dtype=object)
+    sym = (w, b, X, Tg, Dm, sj.rawkeyarr('k'))
+    assum = []
+    code, ref = alg_code(cfg)[0], alg_ref(cfg)
+  elif kind == 'geo':
     N = sum(cfg['sizes'])
     w, b, X, Tg = sym_inputs(N + 1)
     Dm = sj.symarr('Dm', (N + 1,), 'i')
@@ -271,6 +345,8 @@ def run_one(run, kind, cfg, timeout):
     data = {'kind': kind, 'cfg': cfg, 'args': [np.asarray(a).tolist() for a in args]}
     ok, msg = replay_subprocess('C06', data)
     key = '%s:%s' % (kind, ','.join('%s=%s' % (k, cfg[k]) for k in sorted(cfg) if k in ('what', 'api', 'reg', 'mask')))
+    if kind == 'alg':
+      args[4] = np.zeros((0,))
     run.violation(key, '%s differs from the unpadded reference for %s: %s' % (kind, json.dumps(cfg), msg), data, ok)
   return cexs
 
@@ -279,7 +355,10 @@ def replay(data):
   kind, cfg = data['kind'], data['cfg']
   args = data['args']
   fl = [jnp.asarray(np.asarray(a, dtype=np.float64)) for a in args[:4]]
-  if kind == 'geo':
+  if kind == 'alg':
+    extra = [jnp.zeros((0,), jnp.int32)]
+    code, ref = alg_code(cfg)[0], alg_ref(cfg)
+  elif kind == 'geo':
     extra = [jnp.asarray(np.asarray(args[4], dtype=np.int32))]
     code, ref = geo_code(cfg), geo_ref(cfg)
   else:
@@ -318,6 +397,12 @@ def configs(tier):
             if what == 'domain_metrics' and reg:
               continue
             out.append(('geo', dict(fam=fam, reg=reg, sizes=sizes, batch=bsz, buckets=bk, what=what)))
+  # the algorithms that consume the passes: server gradient of Mime/MimeLite (example-weighted over the cohort, regulariser once)
+  # and the domain weights of agnostic FedAvg, for unequal client sizes and several padded geometries
+  for reg in (False, True):
+    for (bsz, bk) in ([(2, 1), (3, 2)] if tier == 'quick' else [(1, 1), (2, 1), (3, 2), (4, 2), (5, 3)]):
+      for what in ('mime_lite_opt', 'mime_opt', 'agnostic_weights'):
+        out.append(('alg', dict(fam='lin', reg=reg, sizes=[3, 0, 1], batch=bsz, buckets=bk, what=what)))
   return out
 
 
